@@ -373,30 +373,43 @@ ADDENDA = {
             "token-position oracle covers every lexer pass of a load, not only the parse."),
     "C10": ("; pair arguments handed over as lists, tuples, one-shot iterators (generator, "
             "zip, iter), items()-only and keys()-only objects and views of another "
-            "container; the container rebuilt through its constructor and copy()", ""),
+            "container; the container rebuilt through its constructor and copy(); containers made from the one under test (copy(), constructor, extend) are kept and checked after every step, with a swap operation; extend/update with the container itself or one of its views under a CPU-time guard; slices of the views", ""),
     "C11": ("", " Each container may have gone through 1-5 C10 operations (inserts, "
-            "deletions, pops ...) before the copy is taken."),
+            "deletions, pops ...) before the copy is taken."
+            " Plain dict values are injected by assignment, insert and append; after a mutation the accessors of the mutated side run before the other side is checked."),
     "C15": ("", " 24 basic positions, among them the very first and the very last "
             "character of the text, glued to comments, after a dash continuation and on "
-            "later lines of multi-line lexemes, plus every gap of a 38-token label."),
+            "later lines of multi-line lexemes, plus every gap of a 38-token label."
+            " Three positions have dash continuations on both sides of the character; range boundaries and large code points are processed first."),
     "C16": ("; soak runs: one instance per parser variant and encoder gets 400 (quick) / "
             "5000 (thorough) mostly failing calls, each repeated on a fresh instance; thorough tier adds coverage-guided atheris histories (texts split out of raw bytes)",
             " Fixed texts include ones that end or fail 45-120 levels deep in nested "
-            "sequences, sets and blocks."),
+            "sequences, sets and blocks."
+            " Histories may register a quantity class on a used encoder (mirrored on later fresh twins) and encode values of it."),
     "C18": ("", " One document in four carries a sequence of reals that are equal in value "
             "and differ in spelling (2.5, 2.50, 25.0e-1 ...), so that a real_cls that keeps "
-            "the written text must receive each of them."),
+            "the written text must receive each of them."
+            " A fourth real_cls is a plain class that is no numbers.Number; six fixed labels with sets that contain sequences are loaded under every configuration (a refusal is fine, a result must carry the substitutes)."),
     "C19": ("; character-level mutants and - thorough tier - coverage-guided atheris "
-            "inputs, kept when the default loader accepts them without repair", ""),
+            "inputs, kept when the default loader accepts them without repair", ""
+            " Every fourth text gets a dumps() with encoder options first and the plain calls after it; eleven extra texts have empty blocks and empty sequences."),
     "C20": ("", " Files also come with a UTF-8 byte order mark, undecodable bytes or NULs "
             "after the label, and CR line ends (bytes are carried in cases through "
-            "surrogateescape)."),
+            "surrogateescape)."
+            " pvl_validate is also run with -v and -vv."),
     "C01": ("", " The generators also produce names no dialect can write (an encoder has to "
             "refuse them), keyword-prefixed words, label-like multi-line strings, 4 kB "
             "strings, units with line breaks or delimiters, boolean magnitudes and a "
-            "rule-based tzinfo; a width sweep writes small modules at every width."),
+            "rule-based tzinfo; a width sweep writes small modules at every width."
+            " One case in four uses an encoder object that has been used before (for the same module)."),
+    "C03": ("", " One document in 25 is a bulk label (a few statements plus empty / one-"
+            "element sequences and sets repeated 40-250 times)."),
+    "C13": ("; call styles: one kept encoder, kept encoder with related / unrelated / "
+            "refused modules in between, a quantity class registered on another encoder "
+            "in between, a decoder object shared between encoders of several dialects", ""),
     "C12": ("", " Same widened module domain as C01 (near-miss names, units with line "
-            "breaks, 4 kB strings)."),
+            "breaks, 4 kB strings)."
+            " The four encoders take turns in every process and about one string in 360 is outside the dialect's character set."),
     "C14": ("", " Encode direction includes a rule-based tzinfo (offset depends on the "
             "date; none for a bare time)."),
 }
